@@ -535,7 +535,11 @@ func (st *Stack) compactLocked(first, last int, expiration *LogExpirationConfig)
 		}
 	}()
 
-	wr, err := NewWriter(tmpTable, &st.cfg)
+	// A compaction copies records; it must not normalise reflog
+	// messages that another handle stored verbatim.
+	cfg := st.cfg
+	cfg.ExactLogMessage = true
+	wr, err := NewWriter(tmpTable, &cfg)
 	if err != nil {
 		return "", err
 	}
